@@ -598,8 +598,13 @@ def r10_9(ctx, rr):
         in_loop = False
         pm = {id(x): ps for x, ps in walk_with_parents(n["th"])}
         for c in calls_f:
-            if any(p.get("k") == "Loop" for p in pm.get(id(c), ())):
+            anc = pm.get(id(c), ())
+            if any(p.get("k") == "Loop" for p in anc):
                 in_loop = True
+            # ... or inside the closure of an internal iteration over the elements (`(0..len).for_each(|_| f(..))`)
+            for i_, p in enumerate(anc):
+                if p.get("k") == "MethodCall" and p.get("name") in ("for_each", "try_for_each", "map") and any(q.get("k") == "Closure" and any(x is c for x in walk(q)) for q in p.get("args", [])):
+                    in_loop = True
         rr.ob(in_loop, key="apply_in_place_unchecked:zero-width-still-applies-f")
         if not in_loop:
             rr.violate("apply_in_place_unchecked:zero-width-still-applies-f", "apply_in_place_unchecked returns at once when the bit width is 0, without applying the function to the len elements (all 0): the documented element-by-element definition calls it len times and validates each result", F.loc(n))
